@@ -88,6 +88,33 @@ func (ws *wakeSignal) joinWaitList(owl *objectWaitList) {
 	ws.objectsTail = ref
 }
 
+// add this wake signal to the front of the specific wait list; used when a woken client
+// found nothing to take and has to wait again without losing its place
+func (ws *wakeSignal) rejoinWaitList(owl *objectWaitList) {
+	ref := &signalListTuple{
+		signal:      ws,
+		waitList:    owl,
+		objectsPrev: ws.objectsTail,
+		queueNext:   owl.queueHead,
+	}
+
+	// place at the front of the object's queue
+	if owl.queueHead == nil {
+		owl.queueTail = ref
+	} else {
+		owl.queueHead.queuePrev = ref
+	}
+	owl.queueHead = ref
+
+	// track in the wake signal's list of lists
+	if ws.objectsTail == nil {
+		ws.objectsHead = ref
+	} else {
+		ws.objectsTail.objectsNext = ref
+	}
+	ws.objectsTail = ref
+}
+
 // take the ref out of the object's blocked queue and out of the
 // wake signal's objects list, and return true if the objects
 // list became empty
@@ -163,6 +190,24 @@ func (wt *waitTable) enterMultiWait(names []string) (ws *wakeSignal) {
 	}
 
 	return
+}
+
+// Puts a wake signal that was woken (and therefore unlinked) back at the front of the wait
+// lists of the named objects.
+func (wt *waitTable) reenterWait(ws *wakeSignal, names []string) {
+	// a signal that is still linked (woken through one of several keys only) is unlinked first
+	wt.unlinkWakeSignal(ws)
+
+	for _, name := range names {
+		list, exists := wt.table[name]
+		if !exists {
+			list = &objectWaitList{
+				name: name,
+			}
+			wt.table[name] = list
+		}
+		ws.rejoinWaitList(list)
+	}
 }
 
 // Removes a client wake signal from all wait lists it is in, because
